@@ -90,9 +90,17 @@ def diff_pass(job):
 # O2 + correspondence: forwarding pass
 
 
-def record_defects(r):
-    """defects of an observed record — same vocabulary as the Lean `defects`, computed here from
-    the observation alone"""
+def justified(fwd, p, by_value, seen_ok=True):
+    """mirror of Np.justified on the static column `fwd` (c06_trace.static_forward)"""
+    star = p not in fwd["named"] and (fwd["star_pos"] or fwd["star_kw"])
+    if by_value:
+        return p in fwd["direct"] or star or (p in fwd["derived"] and seen_ok)
+    return p in fwd["derived"] or star
+
+
+def record_defects(r, fwd=None, seen=None):
+    """defects of an observed record — same vocabulary as the Lean `defects ++ provenanceDefects`,
+    computed here from the observation (and, when `fwd` is given, the ast column) alone"""
     out = []
     calls = r["calls"]
     if not calls:
@@ -106,6 +114,10 @@ def record_defects(r):
     for p, v in r["params"]:
         if v not in ("same", "sameRaw"):
             out.append(f"{v}:{p}")
+        elif fwd is not None:
+            bv = p in r.get("by_value", [])
+            if not justified(fwd, p, bv, True if seen is None else seen.get(p, 0) >= 2):
+                out.append(f"unjustified:{p}")
     if r["post"] == "changed":
         out.append("post:changed")
     return out
@@ -180,6 +192,29 @@ def observe_dispatch(uni):
     return obs
 
 
+def observe_default_untouched():
+    """a function object unknown to both tables goes down the default path: its `_implementation`
+    must receive the very objects (args and kwargs) the caller passed"""
+    import numpy as np
+    import unyt
+
+    got = {}
+
+    class Probe:
+        __name__ = "probe"
+
+        @staticmethod
+        def _implementation(*a, **k):
+            got["a"], got["k"] = a, k
+            return "probe-result"
+
+    x = unyt.unyt_array(np.arange(3.0), "m")
+    s1, s2 = object(), object()
+    r = x.__array_function__(Probe, (unyt.unyt_array,), (x, s1), {"key": s2})
+    return (r == "probe-result" and len(got.get("a", ())) == 2 and got["a"][0] is x and got["a"][1] is s1
+            and list(got.get("k", {})) == ["key"] and got["k"]["key"] is s2)
+
+
 def fwd_replay(tid, dk, sc, seed, om, defect):
     return (
         "import sys, warnings\nwarnings.simplefilter('ignore')\n"
@@ -188,7 +223,9 @@ def fwd_replay(tid, dk, sc, seed, om, defect):
         "import npcatalog as C, c06_trace as TR, c06 as H\n"
         f"t = [t for t in C.templates() if t.tid == {tid!r}][0]\n"
         f"r = TR.trace_case(t, {dk!r}, {sc!r}, {seed!r}, {om!r})\n"
-        "d = H.record_defects(r)\n"
+        "import unyt._array_functions as AF\n"
+        "f = C.resolve(t.func)\n"
+        "d = H.record_defects(r, TR.static_forward(f, AF._HANDLED_FUNCTIONS[f]))\n"
         "print('call:', t.func, '(', t.instantiate(" + f"{dk!r}, {sc!r}, {seed!r}" + ").describe(), ')')\n"
         "print('kernel calls:', r['calls'], 'parameters:', r['params'], 'post:', r['post'], 'defects:', d)\n"
         f"assert {defect!r} not in d, d\n"
@@ -271,6 +308,12 @@ def run(tier, seed):
             chk.count("dispatch:" + o)
             if len(r) < 2 or r[1] != o:
                 chk.disagree("c06.dispatch", f"{f} foreign={fo}: model {r} observed {o}")
+    try:
+        chk.case(("dispatch", "probe"))
+        if not observe_default_untouched():
+            chk.disagree("c06.dispatch", "default path: a function outside both tables did not receive the caller's args/kwargs objects untouched")
+    except Exception as e:  # noqa: BLE001
+        chk.disagree("c06.dispatch", f"default-path probe raised {e!r}")
     known = [k for k in core.load_known() if k["property"] == "C06" and k.get("status") == "known"]
     known_fwd = {k["key"] for k in known if k.get("kind") == "forwarding"}
     if rep is not None and excl != known_fwd:
@@ -297,6 +340,7 @@ def run(tier, seed):
                                         f"assert {p!r} not in d\n"})
 
     # ------------------------------------------------------------ forwarding pass (O2 + correspondence)
+    statics_by_func = {s_["implements"]: s_ for s_ in X["statics"]} if X else {}
     nfs = 1 if tier == "quick" else 3
     fseeds = [1000 + seed * 17 + i for i in range(nfs)]
     lines, expect = [], []
@@ -309,7 +353,8 @@ def run(tier, seed):
         for r in fp["recs"]:
             tid, dk, sc, om = r["case"]
             chk.count("forwarding-cases")
-            for d in record_defects(r):
+            st_ = statics_by_func.get(r["func"])
+            for d in record_defects(r, st_["fwd"] if st_ else None, st_["by_value_seen"] if st_ else None):
                 key = f"{r['func']}|{d}"
                 chk.fail(key, f"{tid} [{dk},{sc},out={om}]: kernel calls {r['calls']} parameters {r['params']} post {r['post']}",
                          {"python": fwd_replay(tid, dk, sc, fs, om, d), "defect": d})
@@ -341,10 +386,16 @@ def run(tier, seed):
                 if rp[1] != "nokernel":
                     chk.disagree("c06.run", f"{tid}: model {rp[1:]} observed no kernel call")
                 continue
-            if rp[1] != "call":
+            if rp[1] == "raised" and len(rp) >= 4:
+                # the row says: every sampled instance raised inside the kernel
+                if not r["outcome"].startswith("raise"):
+                    chk.count("raised-row-returned-on-other-data")
+                via, rendered, post = rp[2], rp[3], "none"
+            elif rp[1] != "call":
                 chk.disagree("c06.run", f"{tid}: model {rp[1:]} observed {r['calls']}")
                 continue
-            via, rendered, post = rp[2], rp[3], rp[4]
+            else:
+                via, rendered, post = rp[2], rp[3], rp[4]
             tg, margs = parse_render(rendered)
             ok = (via == r["calls"][0][0] and tg == r["calls"][0][1] and r["render"] is not None and margs == r["render"])
             if ok and not r["outcome"].startswith("raise") and post not in (r["post"], "none"):
@@ -385,7 +436,9 @@ def run(tier, seed):
     chk.assumptions = [
         "the theorems cover WHICH computation a handler invokes (kernel, arguments, untouched result); NumPy's numeric kernels are an uninterpreted parameter",
         "UnitBlind (NumPy's implementation computes the same numbers on a subclass instance as on its bare data) is assumed for the default path and raw-forwarded parameters; bounded only by the differential run",
-        "the regenerated rows describe the catalogue's call forms; other call forms are covered by the ast pass (never-forwarded parameters, referenced kernels) only",
+        "the regenerated rows describe the catalogue's call forms; other call forms are covered by the ast pass (never-forwarded parameters, referenced kernels, static provenance column) only",
+        "labels are value-independent: a row is observed on data seeds 0 and 1 (translator) and on fresh seeds (read-back); `same` = the kernel received the caller's object/buffer (sentinel objects), by-value labels are backed by the static column or >= 2 distinct values; C06_partial_values generalises such a record to all values of the same call form — not proved from the source",
+        "'handler h forwards p' is an observation of the trusted tracer (harness/c06_trace.py) cross-checked against the ast column; the c06.run opcode is a read-back / seed-stability check of that tracer (both sides share bind/eq_stripped), not independent evidence; the independent evidence is the differential run against NumPy",
     ]
     rule = ("every dispatcher function (numpy, numpy.linalg, numpy.fft with _implementation) and every ndarray method/attribute/dunder in npcatalog × "
             "call templates (positional/keyword/out=) × shapes {0-d,1-d,2-d,square,empty} × {float64,int64,complex128} × out buffer {unyt,bare} × "
